@@ -283,12 +283,23 @@ def explore_case(prop, harness_make, case, kf, *, max_paths=4096, witness_every=
 
 
 def _discharge(prop, ctx, case, kf, res):
+    pending = []
     for label, cond, detail in ctx.checks:
         res["obligations"] += 1
         if cond is True:
             res["discharged"] += 1
             res["trivial"] += 1
-            continue
+        else:
+            pending.append((label, cond, detail))
+    if not pending:
+        return
+    # one query for the conjunction; only when it is refuted are the obligations examined one by one
+    if len(pending) > 1 and not any(c is False for _, c, _ in pending):
+        r = ENGINE.check(z3.Not(z3.And(*[rt.bterm(c) for _, c, _ in pending])))
+        if r == z3.unsat:
+            res["discharged"] += len(pending)
+            return
+    for label, cond, detail in pending:
         entries = kf.matching(prop, case, label)
         neg = z3.BoolVal(True) if cond is False else z3.Not(rt.bterm(cond))
         if entries:
